@@ -101,7 +101,9 @@ Definition taken (o : op) (l : list elem) (r : out) : list elem :=
     match r with OutRef (Some _) => [v] | _ => [] end
   | OMakeContiguous ws | OAsMutSlicesSet ws =>
     firstn (Nat.min (length l) (length ws)) ws
-  | OIter sc | OIterMut sc | ORange _ _ sc | ORangeMut _ _ sc =>
+  | OIter sc | OIterMut sc | ORange _ _ sc | ORangeMut _ _ sc
+  | OIterDefault sc | OIterMutDefault sc | ORefIntoIter sc
+  | OIterDebug _ _ sc | OIterMutDebug _ _ sc =>
     match r with OutScript rs => script_taken sc rs | _ => [] end
   | _ => []
   end.
@@ -117,9 +119,12 @@ Definition handed (o : op) (r : out) : list elem :=
     OutRef (Some (_, old)) => [old]
   | (OMakeContiguous ws | OAsMutSlicesSet ws), OutSlices a b =>
     firstn (Nat.min (length (a ++ b)) (length ws)) (map snd (a ++ b))
-  | (OIter sc | OIterMut sc | ORange _ _ sc | ORangeMut _ _ sc), OutScript rs =>
+  | (OIter sc | OIterMut sc | ORange _ _ sc | ORangeMut _ _ sc
+    | OIterDefault sc | OIterMutDefault sc | ORefIntoIter sc
+    | OIterDebug _ _ sc | OIterMutDebug _ _ sc), OutScript rs =>
     script_handed sc rs
-  | (ODrain _ _ _ _ | OIntoIter _), OutScript rs => sres_items rs
+  | (ODrain _ _ _ _ | OIntoIter _ | ODrainDebug _ _ _ | OIntoIterDebug _), OutScript rs =>
+    sres_items rs
   | OToVec, OutList v => v
   | _, _ => []
   end.
@@ -757,6 +762,59 @@ Proof.
   rewrite sublist_all in P. sret H. cfin. perm.
 Qed.
 
+(* the operations added later: like their counterparts; formatting neither
+   creates nor destroys; boxed / default destroy the old contents *)
+Lemma c_ref_into_iter sc : conserves (ORefIntoIter sc).
+Proof.
+  cs. destruct (spec_script l 0 (length l) sc) as [[rs l'] w] eqn:E. sret H. cfin.
+  apply spec_script_perm in E. perm.
+Qed.
+
+Lemma c_iter_default sc : conserves (OIterDefault sc).
+Proof.
+  cs. destruct (spec_script l 0 0 sc) as [[rs l'] w] eqn:E. sret H. cfin.
+  apply spec_script_perm in E. perm.
+Qed.
+
+Lemma c_iter_mut_default sc : conserves (OIterMutDefault sc).
+Proof.
+  cs. destruct (spec_script l 0 0 sc) as [[rs l'] w] eqn:E. sret H. cfin.
+  apply spec_script_perm in E. perm.
+Qed.
+
+Lemma c_iter_debug sb eb sc : conserves (OIterDebug sb eb sc).
+Proof.
+  cs. destruct (spec_bounds (zlen l) sb eb) as [[a b]|] eqn:Eb; [|discriminate H].
+  destruct (spec_script l (nat_of a) (nat_of b) sc) as [[rs l'] [lo hi]] eqn:E. sret H. cfin.
+  apply spec_script_perm in E. perm.
+Qed.
+
+Lemma c_iter_mut_debug sb eb sc : conserves (OIterMutDebug sb eb sc).
+Proof.
+  cs. destruct (spec_bounds (zlen l) sb eb) as [[a b]|] eqn:Eb; [|discriminate H].
+  destruct (spec_script l (nat_of a) (nat_of b) sc) as [[rs l'] [lo hi]] eqn:E. sret H. cfin.
+  apply spec_script_perm in E. perm.
+Qed.
+
+Lemma c_drain_debug sb eb sc : conserves (ODrainDebug sb eb sc).
+Proof.
+  cs. destruct (spec_bounds (zlen l) sb eb) as [[a b]|] eqn:Eb; [|discriminate H].
+  destruct (spec_script l (nat_of a) (nat_of b) (map plain_step sc)) as [[rs l'] [lo hi]] eqn:Es.
+  apply spec_bounds_range in Eb as Hr.
+  assert (Hab : (nat_of a <= nat_of b <= length l)%nat) by (unfold nat_of, zlen in *; lia).
+  pose proof (plain_script_perm sc l _ _ _ _ _ _ Hab Es) as [R P].
+  pose proof (perm_range (nat_of a) (nat_of b) l ltac:(lia)) as P2.
+  sret H; cfin. perm.
+Qed.
+
+Lemma c_into_iter_debug sc : conserves (OIntoIterDebug sc).
+Proof.
+  cs. destruct (spec_script l 0 (length l) (map plain_step sc)) as [[rs l'] [lo hi]] eqn:Es.
+  assert (Hr : (0 <= length l <= length l)%nat) by lia.
+  pose proof (plain_script_perm sc l _ _ _ _ _ _ Hr Es) as [R P].
+  rewrite sublist_all in P. sret H. cfin. perm.
+Qed.
+
 Lemma c_to_vec : conserves OToVec.
 Proof. cs. sret H. cfin. destruct (0 <? zlen l); evs_simpl; perm. Qed.
 
@@ -812,6 +870,8 @@ Proof.
   | apply c_nth_back_mut_set | apply c_iter | apply c_iter_mut | apply c_range
   | apply c_range_mut | apply c_into_iter | apply c_to_vec | apply c_from_array
   | apply c_from_iter | apply c_eq | apply c_eq_slice | apply c_partial_cmp | apply c_cmp
+  | apply c_ref_into_iter | apply c_iter_default | apply c_iter_mut_default
+  | apply c_iter_debug | apply c_iter_mut_debug | apply c_drain_debug | apply c_into_iter_debug
   | (intros N l nid r HN Hl H; cbv beta iota zeta delta [spec_step] in H; ctriv H) ].
 Qed.
 
@@ -1106,7 +1166,9 @@ Definition args (o : op) : list elem :=
   | OGetMutSet _ v | ONthFrontMutSet _ v | ONthBackMutSet _ v
   | OFrontMutSet v | OBackMutSet v | OIndexMutSet _ v => [v]
   | OMakeContiguous ws | OAsMutSlicesSet ws => ws
-  | OIter sc | OIterMut sc | ORange _ _ sc | ORangeMut _ _ sc => script_args sc
+  | OIter sc | OIterMut sc | ORange _ _ sc | ORangeMut _ _ sc
+  | OIterDefault sc | OIterMutDefault sc | ORefIntoIter sc
+  | OIterDebug _ _ sc | OIterMutDebug _ _ sc => script_args sc
   | _ => []
   end.
 
